@@ -187,3 +187,34 @@ def iter_not_substituted_in_alloc_extent(sig, case):
         and d.get("iter_in_alloc_extent")
         and sig.get("op") in ("divide_loop", "divide_with_recompute", "mult_loops", "shift_loop", "cut_loop", "join_loops", "unroll_loop")
     )
+
+
+# ---------------------------------------------------------------- C14
+_C14 = {
+    "avx2_mask_storeu_ps": ("mismatch",),
+    "mm512_mask_fmadd_ps": ("mismatch",),
+    "mm512_mask_set1_ps": ("mismatch",),
+    "mm512_maskz_loadu_ps": ("mismatch",),
+    "mm256_prefix_load_ps": ("mismatch",),
+    "mm256_fmadd_ps_broadcast": ("gcc_reject",),
+    "prefetch": ("gcc_reject",),
+    "mm512_mask_add_ps": ("sanitizer",),
+}
+
+
+def _c14(instr):
+    def m(sig, case):
+        return sig.get("monitor") == "instr-vs-body" and sig.get("instr") == instr and sig.get("kind") in _C14[instr]
+
+    m.__doc__ = f"x86 instruction {instr}: the C expansion does not follow the Exo body"
+    return m
+
+
+c14_avx2_mask_storeu_ps = _c14("avx2_mask_storeu_ps")
+c14_mm512_mask_fmadd_ps = _c14("mm512_mask_fmadd_ps")
+c14_mm512_mask_set1_ps = _c14("mm512_mask_set1_ps")
+c14_mm512_maskz_loadu_ps = _c14("mm512_maskz_loadu_ps")
+c14_mm256_prefix_load_ps = _c14("mm256_prefix_load_ps")
+c14_mm256_fmadd_ps_broadcast = _c14("mm256_fmadd_ps_broadcast")
+c14_prefetch = _c14("prefetch")
+c14_mm512_mask_add_ps = _c14("mm512_mask_add_ps")
